@@ -714,8 +714,17 @@ class MatchKeySignature(MatchParameter):
         # import pdb
         # pdb.set_trace()
         ksinfo = key_signature_pattern.search(kstr)
+        v1_names = MAJOR_KEYS + [f"{k}m" for k in MINOR_KEYS]
+        v1_parts = [k.strip() for k in kstr.split("/")]
 
-        if ksinfo is None:
+        if len(v1_parts) <= 2 and all(k in v1_names for k in v1_parts):
+            # key names as written in version 1.0.0 (e.g. "Am", "Bb", "F#m/A")
+            fmt = "v1.0.0"
+            fifths1, mode1 = key_name_to_fifths_mode(v1_parts[0])
+            fifths2, mode2 = None, None
+            if len(v1_parts) == 2:
+                fifths2, mode2 = key_name_to_fifths_mode(v1_parts[1])
+        elif ksinfo is None:
             fmt = "v1.0.0"
             ksinfo = kstr.split("/")
             fifths1, mode1 = key_name_to_fifths_mode(ksinfo[0].upper())
